@@ -182,6 +182,15 @@ func kidText(kind, id string) string {
 	case "missing":
 		b, _ := json.Marshal(base)
 		return strings.Replace(string(b), `"isNonce":false,`, "", 1)
+	// texts that decode as a YSSHCA KeyID although they are not what the encoder writes: white space
+	// around the object, members in another order, an unknown member, unicode escapes
+	case "ysws":
+		b, _ := json.Marshal(base)
+		return " \n\t" + string(b) + "\r\n "
+	case "ysorder":
+		return `{"ver":1,"touchPolicy":1,"usage":0,"isNonce":false,"isHeadless":false,"isHWKey":false,"isFirefighter":false,"reqHost":"h","reqIP":"1.2.3.4","reqUser":"u","transID":"t` + id + `","prins":["alice"],"extra":{"a":[1,2]}}`
+	case "ysesc":
+		return `{"prins":["\u0061lice"],"transID":"t` + id + `","reqUser":"u","reqIP":"1.2.3.4","reqHost":"h","isFirefighter":false,"isHWKey":false,"isHeadless":false,"isNonce":false,"usage":0,"touchPolicy":1,"\u0076er":1}`
 	case "free":
 		return "user certificate " + id
 	case "empty":
